@@ -506,6 +506,76 @@ def run(chk, repo, tier):
     r2(chk, repo, models)
     r3(chk, repo)
     r4(chk, repo)
+    r5(chk, repo, models)
+
+
+# --------------------------------------------------------------------------- R5
+def r5(chk, repo, models):
+    """No early exit on an input-valued condition before the outputs are written."""
+    chk.rule("R5", "no evaluation / linearisation method returns early under a condition on its inputs while outputs, residuals or partials that it writes later are still unwritten (they would keep the values of the previous call: a result that depends on the history)", min_decided=60)
+    for m in models:
+        c = m.cls
+        if c.name in POSTPROCESSING or c.name in NEVER_INSTANTIATED:
+            continue
+        for mname, runs in m.runs.items():
+            if mname in SETUP_METHODS or mname not in c.methods:
+                continue
+            f = c.methods[mname]
+            # input-valued tests seen by the interpreter, by line
+            inp_lines = set()
+            for r in runs:
+                for e in r.events:
+                    if e.kind == "test" and e.func is f and any(str(d).startswith(("in:", "out:")) for d in (e.d.get("dep") or ())):
+                        inp_lines.add(e.lineno)
+            parents = {}
+            for n in ast.walk(f.node):
+                for ch in ast.iter_child_nodes(n):
+                    parents[id(ch)] = n
+            last = f.node.body[-1] if f.node.body else None
+            bad = []
+            for n in ast.walk(f.node):
+                if not isinstance(n, ast.Return) or n is last:
+                    continue
+                cur, tests = n, []
+                while id(cur) in parents:
+                    par = parents[id(cur)]
+                    if isinstance(par, ast.If):
+                        tests.append(par)
+                    if isinstance(par, (ast.FunctionDef, ast.AsyncFunctionDef)) and par is not f.node:
+                        tests = None
+                        break
+                    cur = par
+                if not tests:
+                    continue
+                inp = [t for t in tests if t.lineno in inp_lines]
+                if not inp:
+                    continue
+                # storage written after the return but not before it
+                before, after = set(), set()
+                for r in runs:
+                    for e in r.events:
+                        if e.kind == "store" and e.d.get("cell") and e.d["cell"][0] in ("out", "res", "partials") and e.func is f:
+                            (before if e.lineno < n.lineno else after).add(e.d["cell"])
+                # the interpreter may have pruned the code after an always-taken return: fall back to the AST
+                if not after:
+                    for st in ast.walk(f.node):
+                        if isinstance(st, (ast.Assign, ast.AugAssign)) and st.lineno > n.lineno:
+                            tg = st.targets[0] if isinstance(st, ast.Assign) else st.target
+                            root = tg
+                            while isinstance(root, ast.Subscript):
+                                prev = root
+                                root = root.value
+                            if isinstance(root, ast.Name) and root.id in ("outputs", "residuals", "partials", "J"):
+                                after.add(("?", unparse(tg)[:40]))
+                missing = sorted(str(x) for x in after - before)
+                if missing:
+                    bad.append((n, inp[0], missing))
+            key = "%s.%s" % (c.name, mname)
+            if bad:
+                n, t, missing = bad[0]
+                chk.violation("R5", "%s: early return under '%s'" % (key, " ".join(unparse(t.test).split())[:60]), where(c, n.lineno), "returns at line %d when the input-valued condition '%s' holds, before %s is written: on that path the storage keeps the values of the previous evaluation" % (n.lineno, " ".join(unparse(t.test).split())[:80], missing[:3]))
+            else:
+                chk.ok("R5", key, f.where, "no early exit on input values")
 
 
 # --------------------------------------------------------------------------- R2
